@@ -69,6 +69,10 @@ def configs():
 def make_spec(cfg, hosting, cur):
     fam, fa, fb = cfg
     motor = dict(menu.MOTOR_CUR if cur else menu.MOTOR_PLAIN)
+    if cur == 'i0-only':
+        motor.pop('imax')
+    elif cur == 'imax-only':
+        motor.pop('i0')
     J = [2.0, 'gm^2']
     pre_e, pre_l = [], []
     if hosting == 1:
@@ -236,7 +240,7 @@ def check_history(acc, cfg, hosting, cur, hist, tmp):
     acc.executions += 1
     for step, e in enumerate(hist):
         try:
-            do_event(m, e, controlled=cur)
+            do_event(m, e, controlled=(cur is True))
             err = None
         except Exception as ex:
             err = (type(ex).__name__, str(ex)[:160])
@@ -268,9 +272,11 @@ def run_shard(shard, tier):
     hists = valid_histories(depth)
     tmp = tempfile.mkdtemp(prefix='gmc_c17_')
     try:
-        for cur in (False, True):
+        for cur in (False, True, 'i0-only', 'imax-only'):
             if cur and tier == 'quick' and shard['hosting'] != 0:
                 continue
+            if isinstance(cur, str) and (shard['cfg'] % 16 != 5):
+                continue                        # partial current data: on a few gear configurations only
             for h in hists:
                 check_history(acc, cfg, shard['hosting'], cur, h, tmp)
                 acc.nstates += 1
